@@ -108,15 +108,20 @@ func errStr(err error) string {
 func RoundTrip(v interface{}) proj.M {
 	var typMap map[string]reflect.Type
 	var nameMap map[string]string
-	ev := proj.M{"ev": "rt"}
+	xp, xm := 0, ""
 	if msg, p := Call(func() { typMap, nameMap = hessian.ExtractTypeNameMap(v) }); p {
-		ev["xpanic"] = 1
-		ev["xmsg"] = errStr(fmt.Errorf("%s", msg))
+		xp, xm = 1, errStr(fmt.Errorf("%s", msg))
 		nameMap = map[string]string{}
 		typMap = map[string]reflect.Type{}
-	} else {
-		ev["xpanic"] = 0
 	}
+	ev := RoundTripWith(v, typMap, nameMap)
+	ev["xpanic"], ev["xmsg"] = xp, xm
+	return ev
+}
+
+// RoundTripWith is RoundTrip with caller-supplied maps.
+func RoundTripWith(v interface{}, typMap map[string]reflect.Type, nameMap map[string]string) proj.M {
+	ev := proj.M{"ev": "rt", "xpanic": 0}
 	P := proj.New(nameMap)
 	ev["v"] = P.Project(v).JSON()
 	var out []byte
